@@ -5,8 +5,17 @@ cd "$(dirname "$0")" || exit 2
 export PYTHONDONTWRITEBYTECODE=1 PYTHONPATH="/repo${PYTHONPATH:+:$PYTHONPATH}" DELPH_IN_PYDELPHIN_VERIF=1
 /venv/bin/python -B -m harness.common.tables --all || exit 2
 TARGETS=$(/venv/bin/python -B -c "
-import json
+import json, importlib
 m=json.load(open('MANIFEST.json'))
-print(' '.join('Verif.%s.Props Verif.%s.Driver' % (c['property_id'], c['property_id']) for c in m['checks']))")
+ts=[]
+for c in m['checks']:
+    pid=c['property_id']
+    chk=importlib.import_module('harness.%s' % pid.lower()).CHECK
+    props=chk.props_modules or ['Verif.%s.Props' % pid]
+    driver=(chk.driver or 'Verif/%s/Driver.lean' % pid)[:-5].replace('/', '.')
+    for t in (chk.build_targets or (props + [driver])):
+        if t not in ts: ts.append(t)
+print(' '.join(ts))")
+[ -n "$TARGETS" ] || exit 2
 cd lean && lake build $TARGETS 2>&1 | grep -v '^trace' | tail -40
 exit ${PIPESTATUS[0]}
